@@ -1,9 +1,12 @@
 """C16 — converter resolution is a pure function of the registration history.
 
-Correspondence: the same register/resolve history runs on a real `TypeRegistry` (fresh, or the
-library's global transformer registry with its state restored afterwards) and on the Lean model
-`Utv.C16.run`; every resolve answer is compared.  Oracle for the search: `spec_run` below, an
-independent Python rendering of `Utv.C16.specRun`.
+Correspondence: the same history of public calls runs on a real `TypeRegistry` — a fresh one, a fresh one with a
+live `base=` registry, and the library's two own registries through their public entry points
+(`utype.register_transformer` / `TypeTransformer.resolver_transformer` / `utype.type_transform`,
+`utype.register_encoder` / `encoder_registry.resolve` / `JSONEncoder().default`; the library's own registrations are
+the beginning of the history, the registry is put back afterwards) — and on the Lean model (`Utv.C16.runCalls`,
+`Utv.C16.run2`); every answer (converter returned by each resolve / used by each conversion, error of each refused
+registration) is compared.  Oracle for the search: `spec_run` below, written from the property text.
 """
 from __future__ import annotations
 
@@ -11,14 +14,19 @@ import itertools
 import json
 import random
 
-from .common import Check
+from .common import Check, run_impl
 
-NCLS = 8          # class ids 0..7
+NCLS = 10         # classes 0..9 can be registered and resolved
+NT = 11           # resolve targets 0..10 (10 = typing.List[int]: not a class, issubclass() raises on it)
 ATTRS = ["x", "y"]
+LIB_DET = 100     # custom-detector numbers 100+i = the library's own registrations (lib modes)
+LIB_FN = 5000     # converter numbers 5000+i = the library's own converters
 
 
 def _world():
     """The real class hierarchy the histories talk about (built inside the worker)."""
+    import typing
+
     class M(type):
         pass
 
@@ -46,16 +54,22 @@ def _world():
     class H(F):  # 7   carries a shortcut converter
         pass
 
-    return [A, B, C, D, E, F, G, H], [M]
+    class S(str):  # 8   the library's own str converter matches it
+        pass
+
+    class K(dict):  # 9   the library's own dict / Mapping converters and Mapping encoder match it
+        pass
+
+    return [A, B, C, D, E, F, G, H, S, K, typing.List[int]], [M]
 
 
 def _custom_detectors(classes):
-    A, B, C, D, E, F, G, H = classes
+    A, B, C, D, E, F, G, H = classes[:8]
 
     def d0(c):
         if c is F:
             raise TypeError("no")
-        return issubclass(c, B)
+        return issubclass(c, B)      # raises TypeError on a non-class
 
     def d1(c):
         if c in (A, E):
@@ -68,14 +82,15 @@ def _custom_detectors(classes):
     return [d0, d1, d2]
 
 
-def build_tables():
-    classes, metas = _world()
-    dets = _custom_detectors(classes)
+def _tabulate(classes, metas, dets, base=0):
     t = {"issub": [], "isinst": [], "hasattr": [], "custom": []}
     for i, c in enumerate(classes):
-        for j, k in enumerate(classes):
-            if issubclass(c, k):
-                t["issub"].append([i, j])
+        for j, k in enumerate(classes[:NCLS]):
+            try:
+                if issubclass(c, k):
+                    t["issub"].append([i, j])
+            except TypeError:
+                pass
         for j, m in enumerate(metas):
             if isinstance(c, m):
                 t["isinst"].append([i, j])
@@ -87,20 +102,54 @@ def build_tables():
                 v = 1 if d(c) else 0
             except (TypeError, ValueError):
                 v = 2
-            t["custom"].append([k, i, v])
+            t["custom"].append([base + k, i, v])
     return t
 
 
-def impl(case):
-    """Run the history on the real TypeRegistry."""
-    from utype.utils.base import TypeRegistry
-    from utype.utils.transform import TypeTransformer
+def build_tables():
+    classes, metas = _world()
+    return _tabulate(classes, metas, _custom_detectors(classes))
 
+
+def _lib_registry(mode):
+    import utype
+    from utype.utils import encode as enc
+    return utype.TypeTransformer.registry if mode == "transformer" else enc.encoder_registry
+
+
+def lib_probe(case):
+    """(worker) the library's own registrations, oldest first, as opaque detectors tabulated on the world classes"""
+    classes, metas = _world()
+    reg = _lib_registry(case["mode"])
+    hist = list(reversed(list(reg._registry)))
+    rows, prios = [], []
+    for i, (det, _f, prio) in enumerate(hist):
+        prios.append(prio)
+        for t, c in enumerate(classes):
+            try:
+                v = 1 if det(c) else 0
+            except (TypeError, ValueError):
+                v = 2
+            rows.append([LIB_DET + i, t, v])
+    return {"rows": rows, "prios": prios, "shortcut": reg.shortcut, "cache": bool(reg.cache), "base": reg.base is not None,
+            "default": reg.default is not None}
+
+
+NONCLASS = 5
+
+
+def impl(case):
+    """Run the history on the real TypeRegistry through the public calls."""
+    from utype.utils.base import TypeRegistry
+
+    mode = case.get("mode", "fresh")
     classes, metas = _world()
     dets = _custom_detectors(classes)
     fns = {}
 
     def fn(n):
+        if n == 0:
+            return 5                      # not callable: the registry's validator refuses it
         if n not in fns:
             def f(*a, _n=n, **k):
                 return ("conv", _n)
@@ -108,181 +157,322 @@ def impl(case):
             fns[n] = f
         return fns[n]
 
-    shortcut = dict(map(tuple, case.get("shortcut", [])))
-    mode = case.get("mode", "fresh")
+    def dflt(n):
+        return fn(n) if n is not None else None
+
     saved = None
-    if mode == "global":
-        reg = TypeTransformer.registry
-        saved = (list(reg._registry), dict(reg._cache))
+    base = None
+    if mode in ("transformer", "encoder"):
+        import utype
+        from utype.utils import encode as enc
+        reg = _lib_registry(mode)
+        saved = list(reg._registry)
+        libid = {id(e[1]): LIB_FN + i for i, e in enumerate(reversed(saved))}
         attr = reg.shortcut
+        if mode == "transformer":
+            register, resolve = utype.register_transformer, utype.TypeTransformer.resolver_transformer
+            convert = lambda c: utype.type_transform(object(), c)
+        else:
+            register, resolve = utype.register_encoder, enc.encoder_registry.resolve
+            convert = lambda c: utype.JSONEncoder().default(c())
     else:
-        base = None
+        libid = {}
         if case.get("base"):
-            base = TypeRegistry("base", default=fn(case["base"]["default"]) if case["base"].get("default") is not None else None)
-            for r in case["base"]["regs"]:
-                base.register(*[classes[i] for i in r["classes"]], allow_subclasses=r["sub"], priority=r["prio"])(fn(r["fn"]))
-        reg = TypeRegistry("t", base=base, cache=case["cache"], shortcut="__conv__",
-                           default=fn(case["default"]) if case.get("default") is not None else None)
+            b = case["base"]
+            base = TypeRegistry("base", cache=b.get("cache", False), shortcut="__bconv__", default=dflt(b.get("default")))
+        kw = {}
+        if case.get("validator") == "odd":
+            # a registry with its own idea of a valid target (also applied to the shortcut attribute)
+            kw["validator"] = lambda f: getattr(f, "fid", 0) % 2 == 1
+        reg = TypeRegistry("t", base=base, cache=case["cache"], shortcut=None if case.get("noshortcut") else "__conv__",
+                           default=dflt(case.get("default")), **kw)
         attr = "__conv__"
+        register, resolve = reg.register, reg.resolve
+        convert = None
+
+    def ident(r):
+        if r is None:
+            return None
+        if id(r) in libid:
+            return libid[id(r)]
+        return getattr(r, "fid", -1)
+
+    def do_register(register, r):
+        kw = {}
+        cl = [classes[i] if i >= 0 else NONCLASS for i in r.get("classes", [])]
+        if r.get("custom") is not None:
+            kw["detector"] = dets[r["custom"]]
+        if r.get("sub") is not None:
+            kw["allow_subclasses"] = r["sub"]
+        if r.get("meta") is not None:
+            kw["metaclass"] = metas[r["meta"]]
+        a = r.get("attr")
+        if a is not None:
+            kw["attr"] = "" if a == -2 else 5 if a == -1 else ATTRS[a]
+        try:
+            register(*cl, priority=r["prio"], **kw)(fn(r["fn"]))
+            return "ok"
+        except (ValueError, AssertionError, TypeError) as e:
+            return type(e).__name__
+
     try:
-        for t, f in shortcut.items():
+        for t, f in case.get("shortcut", []):
             setattr(classes[t], attr, staticmethod(fn(f)) if f >= 0 else 5)   # f < 0: a non-callable attribute
+        if base is not None:
+            for t, f in case["base"].get("shortcut", []):
+                setattr(classes[t], "__bconv__", staticmethod(fn(f)) if f >= 0 else 5)
         outs = []
         for op in case["ops"]:
-            if "res" in op:
-                r = reg.resolve(classes[op["res"]])
-                outs.append(getattr(r, "fid", None) if r is not None else None)
-                if r is not None and not hasattr(r, "fid"):
-                    outs[-1] = -1   # one of the library's own converters
-            elif "conv" in op:
-                # conversion through the public entry point (global mode only)
-                from utype import type_transform
+            if "res" in op or "resb" in op:
                 try:
-                    r = type_transform(object(), classes[op["conv"]])
-                    outs.append(r[1] if isinstance(r, tuple) and r and r[0] == "conv" else -1)
+                    outs.append(ident(resolve(classes[op["res"]]) if "res" in op else base.resolve(classes[op["resb"]])))
+                except Exception as e:       # a lookup never raises (a detector's TypeError/ValueError means "no")
+                    outs.append("raised:" + type(e).__name__)
+            elif "conv" in op:
+                # conversion through the public entry point (library registries only)
+                try:
+                    r = convert(classes[op["conv"]])
+                    outs.append(r[1] if isinstance(r, tuple) and len(r) == 2 and r[0] == "conv" else "other")
                 except Exception:
-                    outs.append(None)
+                    outs.append("other")
+            elif "regb" in op:
+                outs.append(do_register(base.register, op["regb"]))
             else:
-                r = op["reg"]
-                kw = {}
-                if r.get("custom") is not None:
-                    kw["detector"] = dets[r["custom"]]
-                    cl = []
-                else:
-                    cl = [classes[i] for i in r["classes"]]
-                    kw["allow_subclasses"] = r["sub"]
-                    if r.get("meta") is not None:
-                        kw["metaclass"] = metas[r["meta"]]
-                    if r.get("attr") is not None:
-                        kw["attr"] = ATTRS[r["attr"]]
-                reg.register(*cl, priority=r["prio"], **kw)(fn(r["fn"]))
+                outs.append(do_register(register, op["reg"]))
         return {"outs": outs}
     finally:
         if saved is not None:
-            reg._registry[:] = saved[0]
+            reg._registry = list(saved)
             reg._cache.clear()
-            reg._cache.update(saved[1])
 
 
-# ---- specification (Python rendering of Utv.C16.specRun), the oracle for the real code -----------
+# ---- specification, written from the property text: the oracle for the real code ------------------------------------
+# "the converter used for a type is the matching registration with the highest priority, the most recent one winning
+#  ties, where matching follows the registration's own criteria (exact class, subclass, metaclass, attribute,
+#  detector)"; a registration the registry refuses (nothing to match by, a non-class, a non-string attribute name, a
+#  target that is not callable) is an error and changes nothing; a class carrying the registry's shortcut attribute
+#  brings its own converter; when nothing matches, the base registry (else the default) decides.
 
-def det_matches(tables, r, t):
+def accepts(tb, r, t):
     if r.get("custom") is not None:
-        return [r["custom"], t, 1] in tables["custom"]
+        # a custom detector is the whole criterion (base.py:50 does not look at the other arguments); raising = no
+        return [r["custom"], t, 1] in tb["custom"]
     cs = r["classes"]
     if cs:
         if r["sub"]:
-            if not any([t, c] in tables["issub"] for c in cs):
+            if not any([t, c] in tb["issub"] for c in cs):
                 return False
         elif t not in cs:
             return False
-    if r.get("meta") is not None and [t, r["meta"]] not in tables["isinst"]:
+    if r.get("meta") is not None and [t, r["meta"]] not in tb["isinst"]:
         return False
-    if r.get("attr") is not None and [t, r["attr"]] not in tables["hasattr"]:
+    a = r.get("attr")
+    if a is not None and a >= 0 and [t, a] not in tb["hasattr"]:
         return False
     return True
 
 
-def spec_run(case, tables):
-    regs = []
+def valid_target(case, f, own=True):
+    """does the registry's validator accept converter number f (0 = not callable)"""
+    if f <= 0:
+        return False
+    return f % 2 == 1 if (own and case.get("validator") == "odd") else True
+
+
+def well_formed(r, case=None, own=True):
+    if not valid_target(case or {}, r["fn"], own):
+        return False
+    if r.get("custom") is not None:
+        return True
+    a = r.get("attr")
+    if not r["classes"] and a in (None, -2) and r.get("meta") is None:
+        return False
+    if any(c < 0 for c in r["classes"]) or a == -1:
+        return False
+    return True
+
+
+def chosen(tb, regs, t):
+    """the accepting registration of highest priority, the latest among equals; None when nothing accepts"""
+    cands = [(r["prio"], i) for i, r in enumerate(regs) if accepts(tb, r, t)]
+    return regs[max(cands)[1]] if cands else None
+
+
+def lib_regs(tb):
+    return [{"custom": k, "classes": [], "sub": True, "fn": f, "prio": p} for k, f, p in tb.get("lib", [])]
+
+
+def eff_shortcut(tb, pairs, case=None, own=True):
+    """the classes that carry a shortcut attribute the registry's validator accepts: the class it was set on and its
+    subclasses (a class attribute is inherited); a non-callable attribute (f < 0) is no shortcut; a registry without a
+    shortcut attribute name ignores them all"""
+    if own and (case or {}).get("noshortcut"):
+        return {}
+    return {t: f for c, f in pairs if valid_target(case or {}, f, own) for t in range(NT) if [t, c] in tb["issub"]}
+
+
+def spec_run(case, tb):
+    mode = case.get("mode", "fresh")
+    regs, bregs = list(lib_regs(tb)), []
+    shortcut = eff_shortcut(tb, case.get("shortcut", []), case)
+    b = case.get("base") or None
+    bshort = eff_shortcut(tb, (b or {}).get("shortcut", []), case, own=False)
     outs = []
-    shortcut = {t: f for t, f in case.get("shortcut", []) if f >= 0}
-    fallback = dict(map(tuple, case.get("fallback", [])))
+
+    def base_answer(t):
+        if t in bshort:
+            return bshort[t]
+        e = chosen(tb, bregs, t)
+        return e["fn"] if e else b.get("default")
+
     for op in case["ops"]:
-        if "reg" in op:
-            regs.append(op["reg"])
+        if "reg" in op or "regb" in op:
+            r = op.get("reg") or op.get("regb")
+            if well_formed(r, case, own="reg" in op):
+                (regs if "reg" in op else bregs).append(r)
+                outs.append("ok")
+            else:
+                outs.append("ERR")
+            continue
+        if "resb" in op:
+            outs.append(base_answer(op["resb"]))
             continue
         t = op["res"] if "res" in op else op["conv"]
         if t in shortcut:
-            outs.append(shortcut[t])
-            continue
-        best = None
-        for r in regs:
-            if det_matches(tables, r, t) and (best is None or r["prio"] >= best["prio"]):
-                best = r
-        outs.append(best["fn"] if best else fallback.get(t))
+            v = shortcut[t]
+        else:
+            e = chosen(tb, regs, t)
+            v = e["fn"] if e else (base_answer(t) if b else (case.get("default") if mode == "fresh" else None))
+        outs.append(_conv(v) if "conv" in op else v)
     return outs
 
 
-_TABLES = None
+def _conv(v):
+    """a conversion shows which of OUR converters ran; the library's own / none at all are 'other'"""
+    return v if isinstance(v, int) and 0 < v < LIB_FN else "other"
 
 
-def tables():
-    global _TABLES
-    if _TABLES is None:
-        _TABLES = build_tables()
-    return _TABLES
+def _err(v):
+    return "ERR" if v in ("ValueError", "AssertionError", "TypeError") else v
 
 
-def fallback_for(case):
-    """base.resolve(t) / default for every class, from the spec of the (fixed) base history."""
-    fb = {}
-    if case.get("mode") == "global":
-        return []
-    for t in range(NCLS):
-        v = None
-        if case.get("base"):
-            sub = {"ops": [{"reg": dict(r, custom=None)} for r in case["base"]["regs"]] + [{"res": t}]}
-            v = spec_run(sub, tables())[0]
-            if v is None:
-                v = case["base"].get("default")
-        elif v is None:
-            # base.py:104-107: with a base registry the lookup is delegated entirely; own default only without one
-            v = case.get("default")
-        if v is not None:
-            fb[t] = v
-    return [[t, f] for t, f in fb.items()]
+_TABLES = {}
 
 
-def gen_reg(rng, fn):
-    r = {"fn": fn, "prio": rng.choice([0, 0, 0, 0, 1, 1, 2, -1, 5])}
+def tables(mode="fresh"):
+    """world tables; for the library registries also their own registrations (probed once per run in a worker)"""
+    key = mode if mode in ("transformer", "encoder") else "fresh"
+    if "fresh" not in _TABLES:
+        _TABLES["fresh"] = build_tables()
+    if key not in _TABLES:
+        p = run_impl("harness.c16:lib_probe", [{"mode": key}], 30.0, jobs=1)[0]
+        if not isinstance(p, dict) or "rows" not in p:
+            raise RuntimeError(f"cannot probe the library's {key} registry: {p}")
+        t = {k: list(v) for k, v in _TABLES["fresh"].items()}
+        relevant = sorted({k for k, _t, v in p["rows"] if v == 1})
+        t["custom"] = t["custom"] + [row for row in p["rows"] if row[0] in relevant]
+        t["lib"] = [[k, LIB_FN + (k - LIB_DET), p["prios"][k - LIB_DET]] for k in relevant]
+        t["lib_meta"] = {k: p[k] for k in ("shortcut", "cache", "base", "default")}
+        _TABLES[key] = t
+    return _TABLES[key]
+
+
+def gen_reg(rng, fn, bad_ok=True):
+    r = {"fn": fn, "prio": rng.choice([0, 0, 0, 0, 1, 1, 2, -1, -1, -2, 5]), "meta": None, "attr": None, "custom": None}
     k = rng.random()
-    if k < 0.12:
-        r.update(custom=rng.randrange(3), classes=[], sub=True)
+    if k < 0.14:
+        r.update(custom=rng.randrange(3), classes=[], sub=None)
+        if rng.random() < 0.3:
+            # a detector together with other arguments: the detector alone decides; the others are not even checked
+            r.update(classes=[rng.choice([-1] + list(range(NCLS)))], sub=rng.random() < 0.5)
+            if rng.random() < 0.3:
+                r["attr"] = rng.choice([0, 1, -1])
         return r
     ncl = rng.choice([0, 1, 1, 1, 1, 2])
     r["classes"] = rng.sample(range(NCLS), ncl)
-    r["sub"] = rng.random() < 0.7
-    r["meta"] = 0 if rng.random() < (0.6 if ncl == 0 else 0.1) else None
-    r["attr"] = rng.randrange(2) if rng.random() < (0.6 if ncl == 0 else 0.1) else None
+    r["sub"] = rng.random() < 0.65
+    r["meta"] = 0 if rng.random() < (0.6 if ncl == 0 else 0.12) else None
+    r["attr"] = rng.randrange(2) if rng.random() < (0.6 if ncl == 0 else 0.12) else None
     if ncl == 0 and r["meta"] is None and r["attr"] is None:
         r["attr"] = rng.randrange(2)
+    if ncl and rng.random() < 0.05:
+        r["attr"] = -2                      # attr='' is "no attribute criterion"
+    if bad_ok and rng.random() < 0.08:
+        kind = rng.randrange(5)
+        if kind == 0:
+            r.update(classes=[], meta=None, attr=rng.choice([None, -2]))     # nothing to match by
+        elif kind == 1:
+            r["classes"] = r["classes"] + [-1]                               # not a class
+            rng.shuffle(r["classes"])
+        elif kind == 2:
+            r["attr"] = -1                                                   # attribute name is not a string
+        elif kind == 3:
+            r["fn"] = 0                                                      # target is not callable
+        else:
+            r.update(classes=[-1], fn=0)                                     # both: the argument check comes first
     return r
 
 
 def gen_case(rng, maxlen=8, mode=None):
-    mode = mode or ("global" if rng.random() < 0.2 else "fresh")
+    mode = mode or rng.choices(["fresh", "base", "transformer", "encoder"], [45, 20, 20, 15])[0]
+    lib = mode in ("transformer", "encoder")
+    tb = tables("fresh")
     n = rng.randint(2, maxlen)
     ops = []
     fid = 100
+    resolved = []          # targets already resolved (their answer may sit in a cache)
+    directed = rng.random() < 0.7
     for _ in range(n):
-        if rng.random() < 0.5:
+        k = rng.random()
+        if k < 0.5:
             fid += 1
-            earlier = [o["reg"] for o in ops if "reg" in o]
+            key = "regb" if mode == "base" and rng.random() < 0.55 else "reg"
+            earlier = [o[key] for o in ops if key in o]
             if earlier and rng.random() < 0.3:
-                # the SAME registration signature (detector criteria and priority) again with another converter, after
-                # whatever was registered in between: the latest registration must still win ties
-                ops.append({"reg": dict(rng.choice(earlier), fn=fid)})
+                # the SAME registration signature (criteria and priority) again with another converter, after whatever
+                # was registered in between: the latest registration must still win ties
+                ops.append({key: dict(rng.choice(earlier), fn=fid)})
             else:
-                ops.append({"reg": gen_reg(rng, fid)})
+                r = gen_reg(rng, fid, bad_ok=(mode != "base"))
+                if directed and resolved and rng.random() < 0.7:
+                    # a registration that accepts a class resolved earlier (through a superclass, the exact class, its
+                    # metaclass, an attribute or a detector): it must take effect at the next resolve of that class
+                    for _try in range(30):
+                        if well_formed(r) and any(accepts(tb, r, t) for t in resolved[-3:]):
+                            break
+                        r = gen_reg(rng, fid, bad_ok=False)
+                ops.append({key: r})
         else:
-            t = rng.randrange(NCLS)
-            ops.append({"conv": t} if mode == "global" and rng.random() < 0.5 else {"res": t})
+            t = rng.randrange(NT)
+            if directed and rng.random() < 0.7:
+                regs = [o.get("reg") or o.get("regb") for o in ops if "reg" in o or "regb" in o]
+                cand = [x for x in range(NT) if any(well_formed(r) and accepts(tb, r, x) for r in regs[-3:])]
+                pool = (resolved[-2:] * 2) + cand
+                if pool:
+                    t = rng.choice(pool)
+            resolved.append(t)
+            if lib and t < NCLS and rng.random() < 0.5:
+                ops.append({"conv": t})
+            elif mode == "base" and rng.random() < 0.3:
+                ops.append({"resb": t})
+            else:
+                ops.append({"res": t})
     if not any("reg" in o for o in ops):
-        ops.insert(0, {"reg": gen_reg(rng, 100)})
-    ops.append({"res": rng.randrange(NCLS)})
-    case = {"mode": mode, "cache": True if mode == "global" else rng.random() < 0.6, "ops": ops}
+        ops.insert(0, {"reg": gen_reg(rng, 100, bad_ok=False)})
+    ops.append({"res": rng.choice(resolved) if resolved and rng.random() < 0.6 else rng.randrange(NT)})
+    case = {"mode": mode, "cache": True if lib else rng.random() < 0.6, "ops": ops}
     if rng.random() < 0.3:
         case["shortcut"] = [[7, 900]] if rng.random() < 0.7 else [[7, -1]]
-    if mode == "fresh":
+    if mode == "fresh" and rng.random() < 0.15:
+        case["validator"] = "odd"      # even-numbered converters (and the shortcut converter 900) are refused
+    if mode == "fresh" and rng.random() < 0.1:
+        case["noshortcut"] = True
+    if mode in ("fresh", "base") and rng.random() < 0.4:
+        case["default"] = 990          # with a base registry the own default is never used (base.py:125-128)
+    if mode == "base":
+        case["base"] = {"cache": rng.random() < 0.6, "default": 991 if rng.random() < 0.5 else None}
         if rng.random() < 0.3:
-            case["default"] = 990
-        if rng.random() < 0.3:
-            case["base"] = {"regs": [dict(gen_reg(rng, 800 + i), custom=None, meta=None, attr=None) for i in range(rng.randint(1, 2))],
-                            "default": 991 if rng.random() < 0.5 else None}
-            for r in case["base"]["regs"]:
-                if not r["classes"]:
-                    r["classes"] = [rng.randrange(NCLS)]
+            case["base"]["shortcut"] = [[5, 950]] if rng.random() < 0.7 else [[5, -1]]
     return case
 
 
@@ -300,7 +490,7 @@ def exhaustive_cases(maxlen):
             for k, o in seq:
                 if k == "reg":
                     fid += 1
-                    ops.append({"reg": dict(o, fn=fid)})
+                    ops.append({"reg": dict(o, fn=fid, meta=None, attr=None, custom=None)})
                 else:
                     ops.append(o)
             for cache in (True, False):
@@ -308,98 +498,155 @@ def exhaustive_cases(maxlen):
     return out
 
 
+def exhaustive_base_cases():
+    """every history of length <= 4 over {own/base registration of class 0 or 2, own/base resolve of class 2}"""
+    alpha = [("reg", 0), ("reg", 2), ("regb", 0), ("regb", 2), ("res", 2), ("resb", 2)]
+    out = []
+    for L in range(2, 5):
+        for seq in itertools.product(alpha, repeat=L):
+            if seq[-1][0] != "res" or not any(k == "regb" for k, _ in seq):
+                continue
+            ops, fid = [], 100
+            for k, c in seq:
+                if k.startswith("reg"):
+                    fid += 1
+                    ops.append({k: {"classes": [c], "sub": True, "prio": 0, "fn": fid, "meta": None, "attr": None, "custom": None}})
+                else:
+                    ops.append({k: c})
+            for cache, bcache in ((True, True), (False, True), (True, False)):
+                out.append({"mode": "base", "cache": cache, "ops": ops, "base": {"cache": bcache, "default": 991}})
+    return out
+
+
 class C16(Check):
     prop = "C16"
-    props_modules = ["Utv.Props.C16"]
+    props_modules = ["Utv.Props.C16", "Utv.Lemmas.C16Gen"]
     driver = "C16"
     impl = "harness.c16:impl"
-    rule = ("random register/resolve/convert histories (len<=8 quick, <=14 thorough) over an 8-class hierarchy "
-            "(diamond, metaclass, attributes, shortcut attribute, base registry, default, custom detectors that raise), "
-            "on a fresh TypeRegistry and on the library's global transformer registry; thorough adds every history "
-            "of length<=5 over a 9-op alphabet.  non-trivial = contains a resolve after >=2 matching registrations or a "
-            "registration after a resolve of a matching class; distinct by the full history")
-    assumptions = ["class world (issubclass/isinstance/hasattr/detector behaviour) is sampled from 8 real classes in T2; the theorem is for every world"]
+    rule = ("random histories of public calls (len<=8 quick, <=14 thorough) over 10 real classes + 1 non-class target "
+            "(diamond, metaclass, attributes, shortcut attribute, str/dict subclasses the library's own converters match): "
+            "register(*classes, allow_subclasses, priority, attr, metaclass, detector) incl. detectors that raise, "
+            "detector+classes, refused registrations (nothing to match by / non-class / non-str attr / non-callable target), "
+            "re-registration of the same signature; resolve / conversion; on a fresh TypeRegistry (cache on/off, default), "
+            "on one with a live base registry (registered into and resolved during the history, own cache/default/"
+            "shortcut), and on the library's transformer and encoder registries through utype.register_transformer / "
+            "register_encoder / type_transform / JSONEncoder.default; thorough adds every history of length<=5 over a "
+            "9-op alphabet and every own/base history of length<=4 over a 6-op alphabet.  non-trivial = contains a resolve "
+            "after >=2 accepting registrations or a registration after a resolve of a class it accepts; distinct by the "
+            "full history")
+    assumptions = ["class world (issubclass/isinstance/hasattr/detector behaviour) is sampled from 11 real targets in T2; the theorems are for every world",
+                   "the detector closure and the argument checks of the outer register() (base.py:50-79) are modelled by hand and tied by T2 only (T1 regenerates the inner decorator and resolve)"]
     budget = {"quick": 1500, "thorough": 20000}
     search_budget = {"quick": 4000, "thorough": 40000}
 
     def cases(self, tier, rng, n):
         out = []
         if tier == "thorough":
-            out += exhaustive_cases(5)
+            out += exhaustive_cases(5) + exhaustive_base_cases()
         maxlen = 8 if tier == "quick" else 14
         out += [gen_case(rng, maxlen) for _ in range(n)]
+        if tier != "thorough":
+            out += rng.sample(exhaustive_base_cases(), 150)
         return out
 
     def model_line(self, case):
-        t = tables()
-        line = dict(t)
+        mode = case.get("mode", "fresh")
+        t = tables(mode)
+        line = {k: t[k] for k in ("issub", "isinst", "hasattr", "custom")}
+        fns = {(o.get("reg") or o.get("regb") or {}).get("fn", 0) for o in case["ops"]}
+        line["invalid"] = sorted(f for f in fns | {0} if not valid_target(case, f))
         line["cache"] = case["cache"]
-        line["shortcut"] = [[a, b] for a, b in case.get("shortcut", []) if b >= 0]
-        line["fallback"] = fallback_for(case)
-        if case.get("mode") == "global":
-            line["fallback"] = []
-        line["ops"] = [({"res": o["conv"]} if "conv" in o else o) for o in case["ops"]]
+        line["shortcut"] = [[a, b] for a, b in eff_shortcut(t, case.get("shortcut", []), case).items()]
+        line["fallback"] = []
+        line["legacy"] = bool(case.get("legacy"))
+        ops = [({"res": o["conv"]} if "conv" in o else o) for o in case["ops"]]
+        if mode == "base" or case.get("base"):
+            b = case["base"]
+            line["base"] = {"cache": b.get("cache", False),
+                            "shortcut": [[a, c] for a, c in eff_shortcut(t, b.get("shortcut", []), case, own=False).items()],
+                            "fallback": [[x, b["default"]] for x in range(NT)] if b.get("default") is not None else []}
+        else:
+            if mode == "fresh" and case.get("default") is not None:
+                line["fallback"] = [[x, case["default"]] for x in range(NT)]
+            ops = [{"reg": r} for r in lib_regs(t)] + ops
+        line["ops"] = ops
         return line
 
-    def _norm(self, case, outs):
-        # global registry: the library's own converters never match our fresh classes, but be safe
-        return [None if (o == -1) else o for o in outs]
+    def _aligned(self, case, outs, tb):
+        """the driver answers one entry per call; drop the library's own registrations in front, show conversions as
+        conversions"""
+        nlib = 0 if case.get("base") else len(tb.get("lib", []))
+        outs = list(outs[nlib:])
+        return [(_conv(v) if i < len(case["ops"]) and "conv" in case["ops"][i] else v) for i, v in enumerate(outs)]
 
     def compare(self, case, io, mo):
         if not isinstance(mo, dict) or "model" not in mo:
             return f"driver: {mo}"
         if "outs" not in io:
             return f"impl: {io}"
-        if self._norm(case, io["outs"]) != mo["model"]:
-            return f"resolve answers differ: impl={io['outs']} model={mo['model']}"
+        model = self._aligned(case, mo["model"], tables(case.get("mode", "fresh")))
+        if io["outs"] != model:
+            return f"answers differ: impl={io['outs']} model={model}"
         return None
 
     def spec(self, case, io, mo):
         if "outs" not in io:
             return f"registry operation did not complete: {io}"
-        c = dict(case, fallback=self.model_line(case)["fallback"])
-        want = spec_run(c, tables())
-        if isinstance(mo, dict) and "spec" in mo and mo["spec"] != want:
-            return None if False else f"HARNESS: python spec {want} != lean spec {mo['spec']}"
-        got = self._norm(case, io["outs"])
+        tb = tables(case.get("mode", "fresh"))
+        want = spec_run(case, tb)
+        if isinstance(mo, dict) and "spec" in mo:
+            lean = [_err(v) for v in self._aligned(case, mo["spec"], tb)]
+            if lean != want:
+                return f"HARNESS: python spec {want} != lean spec {lean}"
+        got = [_err(v) for v in io["outs"]]
         if got != want:
-            i = next(k for k, (a, b) in enumerate(zip(got, want)) if a != b)
-            return f"resolve #{i} returned converter {got[i]} but the registrations made so far select {want[i]}"
+            i = next((k for k, (a, b) in enumerate(zip(got, want)) if a != b), min(len(got), len(want)))
+            op = case["ops"][i] if i < len(case["ops"]) else None
+            g = got[i] if i < len(got) else None
+            w = want[i] if i < len(want) else None
+            if op and ("reg" in op or "regb" in op):
+                return f"call #{i} {json.dumps(op)}: registration answered {g!r} but the property says {w!r}"
+            return (f"call #{i} {json.dumps(op)} used converter {g!r} but the registrations made so far select {w!r}")
         return None
 
     def key(self, case, io):
-        regs_seen, resolved, nontrivial = [], set(), False
-        tb = tables()
+        tb = tables(case.get("mode", "fresh"))
+        regs_seen, resolved, nontrivial = list(lib_regs(tb)), set(), False
         for op in case["ops"]:
-            if "reg" in op:
-                if any(det_matches(tb, op["reg"], t) for t in resolved):
+            r = op.get("reg") or op.get("regb")
+            if r is not None:
+                if not well_formed(r, case, own="reg" in op):
+                    continue
+                if any(accepts(tb, r, t) for t in resolved):
                     nontrivial = True
-                regs_seen.append(op["reg"])
+                regs_seen.append(r)
             else:
-                t = op.get("res", op.get("conv"))
+                t = next(iter(op.values()))
                 resolved.add(t)
-                if sum(det_matches(tb, r, t) for r in regs_seen) >= 2:
+                if sum(accepts(tb, r, t) for r in regs_seen) >= 2:
                     nontrivial = True
         return json.dumps(case, sort_keys=True) if nontrivial else None
 
     def distribution(self, case, io):
-        nreg = sum("reg" in o for o in case["ops"])
+        nreg = sum("reg" in o or "regb" in o for o in case["ops"])
         return f"{case.get('mode')}/cache={case['cache']}/regs={nreg}/len={len(case['ops'])}"
 
     def neighbours(self, case, rng):
         out = []
         ops = case["ops"]
         for i in range(len(ops)):
-            out.append(dict(case, ops=ops[:i] + ops[i + 1:] + [{"res": rng.randrange(NCLS)}]))
-        for t in range(NCLS):
+            out.append(dict(case, ops=ops[:i] + ops[i + 1:] + [{"res": rng.randrange(NT)}]))
+        for t in range(NT):
             out.append(dict(case, ops=ops + [{"res": t}]))
-        out.append(dict(case, cache=not case["cache"]) if case.get("mode") != "global" else case)
+        if case.get("mode") in ("fresh", "base"):
+            out.append(dict(case, cache=not case["cache"]))
         return out
 
     def finish_evidence(self, ev, tier):
         ev["coverage"]["exhaustive"] = False
         if tier == "thorough":
-            ev["coverage"]["exhaustive_part"] = "all histories of length<=5 over 6 registrations x 3 resolves x cache on/off"
+            ev["coverage"]["exhaustive_part"] = ("all histories of length<=5 over 6 registrations x 3 resolves x cache on/off; "
+                                                 "all own/base histories of length<=4 over 6 ops x 3 cache settings")
 
 
 CHECK = C16()
